@@ -26,6 +26,7 @@ import warnings
 from concurrent.futures import ProcessPoolExecutor
 
 import core
+import c02_payload
 import codec_common as cc
 import extract_c01
 import lenient_common as lc
@@ -249,6 +250,7 @@ def run(ctx: core.Run):
     logging.disable(logging.CRITICAL)
     ctx.regenerate(extract_c01.gen_codec)
     ctx.prove(["PsdVerif.Props.C02"])
+    c02_payload.run(ctx)
     quick = ctx.quick
     rng = ctx.rng
 
